@@ -10,7 +10,7 @@ from checks.C34 import name_ok, pair_ok, NAMES
 NAMES = ["a-b", "a_b", "a!", "-a", "_-a", "__a-b", "*1", "ｆoo", "foo", "a?", "é-é", "is-not", "a-b-", "ａ-b", "valid?", "x->y", "<3", "hyx_XplusHsignX", "with", "p*"]
 
 BINDERS = ["setv", "defn", "defclass", "param", "kwarg", "attr", "dot-form-attr", "import-as", "defmacro", "for", "with-as", "except-as", "let", "global", "setx", "lfor-leak", "fn-default",
-           "kw-only-param", "match-capture", "del"]
+           "kw-only-param", "match-capture", "del", "kw-lookup", "kw-lookup-default", "kw-lookup-var", "method-kwarg"]
 
 
 def program(binder, s):
@@ -55,6 +55,15 @@ def program(binder, s):
         return "(match val %s None)" % s
     if binder == "del":
         return "(setv %s val) (setv COPY %s) (del %s)" % (s, s, s)
+    if binder == "kw-lookup":
+        # (:s obj) looks up the mangled name
+        return "(setv D (dict :%s val)) (setv LOOK (:%s D))" % (s, s)
+    if binder == "kw-lookup-default":
+        return "(setv D (dict :%s val)) (setv LOOK (:%s D \"dflt\")) (setv MISS (:%s {} \"dflt\"))" % (s, s, s)
+    if binder == "kw-lookup-var":
+        return "(setv D (dict :%s val) k :%s) (setv LOOK (k D \"dflt\"))" % (s, s)
+    if binder == "method-kwarg":
+        return "(setv o (OBJ)) (setv o.m (fn [#** kw] kw)) (setv KW (.m o :%s val)) (setv KW2 (. o (m :%s val)))" % (s, s)
 
 
 class _OBJ:
@@ -114,6 +123,20 @@ def name_ok(bi, ni, val, why=None):
             return True  # core-macro / pattern names that a construct may refuse with a Hy error
         return bad("program %r -> %r" % (program(b, s), r[:3]))
     g = r[1]
+    if b in ("kw-lookup", "kw-lookup-default", "kw-lookup-var"):
+        if list(g["D"]) != [py]:
+            return bad("dict key arrived as %r" % (list(g["D"]),))
+        if g["LOOK"] != val:
+            return bad("lookup gave %r" % (g["LOOK"],))
+        if b == "kw-lookup-default" and g["MISS"] != "dflt":
+            return bad("lookup in an empty dict gave %r" % (g["MISS"],))
+        return True
+    if b == "method-kwarg":
+        for nm in ("KW", "KW2"):
+            kw = g[nm]
+            if not (len(kw) == 1 and py in kw and kw[py] == val):
+                return bad("keyword argument of a method call arrived as %r" % (list(kw),))
+        return True
     if b == "kwarg":
         kw = g["KW"]
         if not (len(kw) == 1 and py in kw and kw[py] == val):
